@@ -129,7 +129,7 @@ const CONTENTS: [&str; 5] = ["a", "a  ", "''", "'''", ""];
 const BASES: [&str; 6] = ["", "  ", "    ", "\t", "\u{3000}", " \t"];
 const TERMS: usize = 5;
 const AFTERS: [&str; 3] = [";", ".Trim;", " + 'x';"];
-pub const C12_POSITIONS: usize = 6;
+pub const C12_POSITIONS: usize = 7;
 
 fn line_options() -> usize {
     INDENT_KINDS * CONTENTS.len()
@@ -245,7 +245,9 @@ impl C12Family {
             2 => format!("begin\n  f({lit}, 1);\nend;\n"),
             3 => format!("begin\n  x := 'a' + {lit}{after}\nend;\n"),
             4 => format!("begin\n  x := procedure begin y := {lit}{after} z; end;\nend;\n"),
-            _ => format!("begin\n  // pasfmt off\n  x := {lit}{after}\n  // pasfmt on\n  y;\nend;\n"),
+            5 => format!("begin\n  // pasfmt off\n  x := {lit}{after}\n  // pasfmt on\n  y;\nend;\n"),
+            // the opening quotes start their own line, indented like the closing quotes
+            _ => format!("begin\n  x :=\n{base}{lit}{after}\nend;\n"),
         };
         (text, cfg)
     }
